@@ -1,7 +1,9 @@
 //! `mc <Cxx> [--tier quick|thorough] [--out evidence.json] [--replay file]`
 //! Bounded-exhaustive checks of rtcm-rs that do not need serde.
 
+mod bits;
 mod common;
+mod field;
 mod frame;
 mod replay;
 
@@ -15,6 +17,9 @@ fn main() {
         std::process::exit(replay::replay(&ctx, p));
     }
     let (rep, meta) = match ctx.prop.as_str() {
+        "C07" => bits::c07(&ctx),
+        "C08" => field::c08(&ctx),
+        "C11" => field::c11(&ctx),
         "C03" => frame::c03(&ctx),
         "C04" => frame::c04(&ctx),
         "C05" => frame::c05(&ctx),
@@ -30,6 +35,11 @@ fn main() {
 }
 
 /// replay kinds of engines added later
-pub fn replay_more(kind: &str, _r: &serde_json::Value) -> Result<String, String> {
-    Err(format!("unknown replay kind {:?}", kind))
+pub fn replay_more(kind: &str, r: &serde_json::Value) -> Result<String, String> {
+    let o = match kind {
+        "bitfield" => bits::replay(r),
+        "field_pattern" | "field_value" => field::replay(kind, r),
+        _ => None,
+    };
+    o.ok_or_else(|| format!("unknown or malformed replay kind {:?}", kind))
 }
